@@ -56,28 +56,33 @@ variable (s : St σ) (b : Board) (ps : σ) (pv : Pv.Rows) (sm : StackMove) (a : 
 @[simp] theorem flag_frames : (s.flag a).frames = s.frames := rfl
 end fields
 
-theorem mono_setBoard (L : Limits) (s : St σ) (b : Board) : Mono L s (s.setBoard b) := Mono.of_eq rfl rfl rfl rfl rfl rfl
-theorem mono_setPs (L : Limits) (s : St σ) (ps : σ) : Mono L s (s.setPs ps) := Mono.of_eq rfl rfl rfl rfl rfl rfl
-theorem mono_setPv (L : Limits) (s : St σ) (pv : Pv.Rows) : Mono L s (s.setPv pv) := Mono.of_eq rfl rfl rfl rfl rfl rfl
-theorem mono_push (L : Limits) (s : St σ) (sm : StackMove) : Mono L s (s.push sm) := Mono.of_eq rfl rfl rfl rfl rfl rfl
-theorem mono_pop (L : Limits) (s : St σ) : Mono L s s.pop := Mono.of_eq rfl rfl rfl rfl rfl rfl
-theorem mono_pushFrame (L : Limits) (s : St σ) : Mono L s s.pushFrame := Mono.of_eq rfl rfl rfl rfl rfl rfl
-theorem mono_popFrame (L : Limits) (s : St σ) : Mono L s s.popFrame := Mono.of_eq rfl rfl rfl rfl rfl rfl
-theorem mono_outOfFuel (L : Limits) (s : St σ) : Mono L s s.outOfFuel :=
-  ⟨rfl, Int.le_refl _, fun _ h => h, fun _ => rfl, fun _ => rfl, id, Nat.le_refl _⟩
-theorem mono_flag (L : Limits) (s : St σ) (a : Bool) : Mono L s (s.flag a) :=
-  ⟨rfl, Int.le_refl _, fun _ h => h, id, id, fun h => by simp [St.flag, h], Nat.le_refl _⟩
-
 theorem setBoard_self (s : St σ) : s.setBoard s.board = s := by cases s; rfl
+
+variable [PsInv σ]
+
+theorem mono_setBoard (L : Limits) (s : St σ) (b : Board) : Mono L s (s.setBoard b) := Mono.of_eq rfl rfl rfl rfl rfl rfl rfl
+/-- replacing the persistent state: the new one must satisfy the invariant if the old one did. -/
+theorem mono_setPs (L : Limits) (s : St σ) (ps : σ) (h : PsInv.ok s.ps → PsInv.ok ps) : Mono L s (s.setPs ps) :=
+  ⟨rfl, Int.le_refl _, fun _ h => h, id, id, id, Nat.le_refl _, h⟩
+theorem mono_setPv (L : Limits) (s : St σ) (pv : Pv.Rows) : Mono L s (s.setPv pv) := Mono.of_eq rfl rfl rfl rfl rfl rfl rfl
+theorem mono_push (L : Limits) (s : St σ) (sm : StackMove) : Mono L s (s.push sm) := Mono.of_eq rfl rfl rfl rfl rfl rfl rfl
+theorem mono_pop (L : Limits) (s : St σ) : Mono L s s.pop := Mono.of_eq rfl rfl rfl rfl rfl rfl rfl
+theorem mono_pushFrame (L : Limits) (s : St σ) : Mono L s s.pushFrame := Mono.of_eq rfl rfl rfl rfl rfl rfl rfl
+theorem mono_popFrame (L : Limits) (s : St σ) : Mono L s s.popFrame := Mono.of_eq rfl rfl rfl rfl rfl rfl rfl
+theorem mono_outOfFuel (L : Limits) (s : St σ) : Mono L s s.outOfFuel :=
+  ⟨rfl, Int.le_refl _, fun _ h => h, fun _ => rfl, fun _ => rfl, id, Nat.le_refl _, id⟩
+theorem mono_flag (L : Limits) (s : St σ) (a : Bool) : Mono L s (s.flag a) :=
+  ⟨rfl, Int.le_refl _, fun _ h => h, id, id, fun h => by simp [St.flag, h], Nat.le_refl _, id⟩
 
 /-! ### quiescence -/
 
 /-- what a quiescence-like function guarantees on `Good` boards. -/
 def QSpec (L : Limits) (Good : Board → Prop) (child : Score → Score → Int → St σ → Score × St σ) : Prop :=
-  ∀ a b p s, Good s.board → Frame L s (child a b p s).2 ∧ (child a b p s).2.pv = s.pv
+  ∀ a b p s, Good s.board → PsInv.ok s.ps → Frame L s (child a b p s).2 ∧ (child a b p s).2.pv = s.pv
 
-theorem qAfter_spec (c : Comp σ π) (L : Limits) (beta : Score) (ply : Int) (m : Move) (r : Board.Reverse)
-    (l : QLoop) (v : Score) (s : St σ) :
+theorem qAfter_spec (c : Comp σ π) (L : Limits) {Good : Board → Prop} (hl : Laws c Good) (beta : Score) (ply : Int)
+    (m : Move) (r : Board.Reverse) (l : QLoop) (v : Score) (s : St σ)
+    (hgb : Good (s.board.undoMove m r)) (hmb : m ∈ MoveGen.gen (s.board.undoMove m r)) :
     let o := qAfter c L beta ply m r l v s
     Mono L s o.2 ∧ o.2.board = s.board.undoMove m r ∧ o.2.hstack = s.hstack ∧ o.2.frames = s.frames ∧ o.2.pv = s.pv ∧
       (∀ l', o.1 ≠ .brk l') := by
@@ -88,20 +93,21 @@ theorem qAfter_spec (c : Comp σ π) (L : Limits) (beta : Score) (ply : Int) (m 
   split
   · exact ⟨(mono_setBoard L s _).trans hf.mono, hf.board, hf.hstack, hf.frames, hp.1, fun _ h => by cases h⟩
   · split
-    · exact ⟨((mono_setBoard L s _).trans hf.mono).trans (mono_setPs L _ _), hf.board, hf.hstack, hf.frames, hp.1,
-        fun _ h => by cases h⟩
+    · exact ⟨((mono_setBoard L s _).trans hf.mono).trans (mono_setPs L _ _
+          (fun h => hl.ok_store _ _ _ _ _ _ _ h (by rw [hf.board]; exact hgb) (Or.inr (by rw [hf.board]; exact hmb)))),
+        hf.board, hf.hstack, hf.frames, hp.1, fun _ h => by cases h⟩
     · exact ⟨(mono_setBoard L s _).trans hf.mono, hf.board, hf.hstack, hf.frames, hp.1, fun _ h => by cases h⟩
 
 theorem qLoop_spec (c : Comp σ π) (L : Limits) {Good : Board → Prop} (hl : Laws c Good)
     (child : Score → Score → Int → St σ → Score × St σ) (hc : QSpec L Good child) (beta sp : Score) (ply : Int) :
-    ∀ (moves : List (Move × Score)) (l : QLoop) (s : St σ), Good s.board →
+    ∀ (moves : List (Move × Score)) (l : QLoop) (s : St σ), Good s.board → NodeOK s →
       (∀ mw ∈ moves, mw.1 ∈ MoveGen.gen s.board) →
       Frame L s (qLoop c L child beta sp ply moves l s).2 ∧ (qLoop c L child beta sp ply moves l s).2.pv = s.pv := by
   intro moves
   induction moves with
-  | nil => intro l s _ _; exact ⟨Frame.refl L s, rfl⟩
+  | nil => intro l s _ _ _; exact ⟨Frame.refl L s, rfl⟩
   | cons mw rest ih =>
-    intro l s hg hm
+    intro l s hg hn hm
     obtain ⟨m, w⟩ := mw
     have hmem : m ∈ MoveGen.gen s.board := hm (m, w) (List.mem_cons_self)
     have hrest : ∀ mw ∈ rest, mw.1 ∈ MoveGen.gen s.board := fun mw h => hm mw (List.mem_cons_of_mem _ h)
@@ -110,15 +116,18 @@ theorem qLoop_spec (c : Comp σ π) (L : Limits) {Good : Board → Prop} (hl : L
     split
     · exact ⟨Frame.refl L s, rfl⟩
     · split
-      · rw [hu, setBoard_self]; exact ih l s hg hrest
+      · rw [hu, setBoard_self]; exact ih l s hg hn hrest
       · next hchk =>
         split
         · rw [hu, setBoard_self]; exact ⟨Frame.refl L s, rfl⟩
         · have hchk' : (s.board.makeMove c.keys m).1.inCheck s.board.stm = false := by simpa using hchk
-          have hg' := hl.good_make s.board m hg hmem hchk'
-          have hcs := hc (neg beta) (neg l.alpha) (wrapS8 (ply + 1)) (s.setBoard (s.board.makeMove c.keys m).1) hg'
+          have hg' := hl.good_make s.board m hg hn.2 hmem hchk'
+          have hcs := hc (neg beta) (neg l.alpha) (wrapS8 (ply + 1)) (s.setBoard (s.board.makeMove c.keys m).1) hg' hn.1
           generalize child (neg beta) (neg l.alpha) (wrapS8 (ply + 1)) (s.setBoard (s.board.makeMove c.keys m).1) = r at hcs ⊢
-          have ha := qAfter_spec c L beta ply m (s.board.makeMove c.keys m).2 l r.1 r.2
+          have hub : r.2.board.undoMove m (s.board.makeMove c.keys m).2 = s.board := by
+            rw [hcs.1.board]; simpa using hu
+          have ha := qAfter_spec c L hl beta ply m (s.board.makeMove c.keys m).2 l r.1 r.2
+            (by rw [hub]; exact hg) (by rw [hub]; exact hmem)
           simp only at ha
           generalize qAfter c L beta ply m (s.board.makeMove c.keys m).2 l r.1 r.2 = o at ha ⊢
           obtain ⟨hm1, hb1, hh1, hf1, hp1, hnb⟩ := ha
@@ -134,12 +143,12 @@ theorem qLoop_spec (c : Comp σ π) (L : Limits) {Good : Board → Prop} (hl : L
           | brk l' => exact absurd rfl (hnb l')
           | cont l' =>
             simp only at hfr hpv hboard ⊢
-            have := ih l' s' (by rw [hboard]; exact hg) (by rw [hboard]; exact hrest)
+            have := ih l' s' (by rw [hboard]; exact hg) (hfr.nodeOK hn) (by rw [hboard]; exact hrest)
             exact ⟨hfr.trans this.1, this.2.trans hpv⟩
 
 theorem qBody_spec (c : Comp σ π) (L : Limits) {Good : Board → Prop} (hl : Laws c Good)
     (child : Score → Score → Int → St σ → Score × St σ) (hc : QSpec L Good child)
-    (alpha beta : Score) (ply : Int) (s : St σ) (hg : Good s.board) :
+    (alpha beta : Score) (ply : Int) (s : St σ) (hg : Good s.board) (hn : NodeOK s) :
     Frame L s (qBody c L child alpha beta ply s).2 ∧ (qBody c L child alpha beta ply s).2.pv = s.pv := by
   simp only [qBody]
   split
@@ -151,7 +160,7 @@ theorem qBody_spec (c : Comp σ π) (L : Limits) {Good : Board → Prop} (hl : L
       · split
         · exact ⟨Frame.refl L s, rfl⟩
         · have h := qLoop_spec c L hl child hc beta (evaluate c s.board) ply (c.qMoves s.ps s.board s.hstack)
-            { alpha := max alpha (evaluate c s.board), maxim := evaluate c s.board } s.pushFrame hg
+            { alpha := max alpha (evaluate c s.board), maxim := evaluate c s.board } s.pushFrame hg hn
             (fun mw hmw => hl.q_mem s.ps s.board s.hstack mw.1 mw.2 hg hmw)
           generalize qLoop c L child beta (evaluate c s.board) ply (c.qMoves s.ps s.board s.hstack)
             { alpha := max alpha (evaluate c s.board), maxim := evaluate c s.board } s.pushFrame = r at h ⊢
@@ -161,14 +170,21 @@ theorem qBody_spec (c : Comp σ π) (L : Limits) {Good : Board → Prop} (hl : L
           have hpv : r.2.popFrame.pv = s.pv := h.2
           split
           · exact ⟨hfr, hpv⟩
-          · exact ⟨⟨hfr.mono.trans (mono_setPs L _ _), hfr.board, hfr.hstack, hfr.frames⟩, hpv⟩
+          · exact ⟨⟨hfr.mono.trans (mono_setPs L _ _
+              (fun h' => hl.ok_store _ _ _ _ _ _ _ h' (by rw [hfr.board]; exact hg) (Or.inl rfl))),
+              hfr.board, hfr.hstack, hfr.frames⟩, hpv⟩
+
+/-- the draw test of a node failed: the halfmove clock is below 100. -/
+theorem fifty_lt_of_not_draw {b : Board} {P : Prop} (h : ¬ (b.fifty ≥ 100 ∨ P)) : b.fifty < 100 := by
+  have : ¬ b.fifty ≥ 100 := fun h' => h (Or.inl h')
+  omega
 
 theorem quiescence_spec (c : Comp σ π) (L : Limits) {Good : Board → Prop} (hl : Laws c Good) (fuel : Nat) :
     QSpec L Good (quiescence c L fuel) := by
   induction fuel with
-  | zero => intro a b p s _; exact ⟨⟨mono_outOfFuel L s, rfl, rfl, rfl⟩, rfl⟩
+  | zero => intro a b p s _ _; exact ⟨⟨mono_outOfFuel L s, rfl, rfl, rfl⟩, rfl⟩
   | succ fuel ih =>
-    intro a b p s hg
+    intro a b p s hg hok
     simp only [quiescence]
     have h1 := incrementNodes_frame L s
     have h2 := abort_frame L (incrementNodes L s)
@@ -178,8 +194,9 @@ theorem quiescence_spec (c : Comp σ π) (L : Limits) {Good : Board → Prop} (h
     · exact ⟨h12, hp⟩
     · split
       · exact ⟨h12, hp⟩
-      · have := qBody_spec c L hl (quiescence c L fuel) ih a b p (abort L (incrementNodes L s)).2
-          (by rw [h12.board]; exact hg)
+      · next hnd =>
+        have := qBody_spec c L hl (quiescence c L fuel) ih a b p (abort L (incrementNodes L s)).2
+          (by rw [h12.board]; exact hg) ⟨h12.mono.ps_ok hok, fifty_lt_of_not_draw hnd⟩
         exact ⟨h12.trans this.1, this.2.trans hp⟩
 
 /-! ### alphaBeta -/
@@ -190,7 +207,7 @@ def ABPost (K : Keys) (L : Limits) (p : Nat) (s s' : St σ) : Prop :=
 
 /-- what an alphaBeta-like function guarantees on `Good` boards. -/
 def ABSpec (c : Comp σ π) (L : Limits) (Good : Board → Prop) (child : Child σ) : Prop :=
-  ∀ a b d ply nt s, Good s.board → 0 ≤ ply → ABPost c.keys L ply.toNat s (child a b d ply nt s).2
+  ∀ a b d ply nt s, Good s.board → PsInv.ok s.ps → 0 ≤ ply → ABPost c.keys L ply.toNat s (child a b d ply nt s).2
 
 theorem wrapS8_succ {ply : Int} (h0 : 0 ≤ ply) (h1 : ply < 63) : wrapS8 (ply + 1) = ply + 1 := by
   unfold wrapS8; omega
@@ -202,21 +219,23 @@ theorem callChild_snd (child : Child σ) (a b : Score) (d ply : Int) (nt : NodeT
 
 /-- one call of the child at ply `p+1` from a state whose board is `Good`. -/
 theorem callChild_post (c : Comp σ π) (L : Limits) {Good : Board → Prop} (child : Child σ) (hc : ABSpec c L Good child)
-    (a b : Score) (d : Int) {ply : Int} (h0 : 0 ≤ ply) (h1 : ply < 63) (nt : NodeType) (s : St σ) (hg : Good s.board) :
+    (a b : Score) (d : Int) {ply : Int} (h0 : 0 ≤ ply) (h1 : ply < 63) (nt : NodeType) (s : St σ) (hg : Good s.board)
+    (hok : PsInv.ok s.ps) :
     let o := callChild child a b d (wrapS8 (ply + 1)) nt s
     Frame L s o.2 ∧ (∀ q, q ≤ ply.toNat → o.2.pv.row q = s.pv.row q) ∧ LegalLine c.keys s.board (o.2.pv.row (ply.toNat + 1)) := by
-  have := hc a b d (wrapS8 (ply + 1)) nt s hg (by rw [wrapS8_succ h0 h1]; omega)
+  have := hc a b d (wrapS8 (ply + 1)) nt s hg hok (by rw [wrapS8_succ h0 h1]; omega)
   rw [wrapS8_succ h0 h1, toNat_succ h0] at this
   simp only [callChild_snd, wrapS8_succ h0 h1]
   exact ⟨this.1, fun q hq => this.2.1 q (by omega), this.2.2⟩
 
 theorem searchRest_spec (c : Comp σ π) (L : Limits) {Good : Board → Prop} (child : Child σ) (hc : ABSpec c L Good child)
-    (x : ABCtx) (l : ABLoop π) (next : NodeType) (s : St σ) (hg : Good s.board) (h0 : 0 ≤ x.ply) (h1 : x.ply < 63) :
+    (x : ABCtx) (l : ABLoop π) (next : NodeType) (s : St σ) (hg : Good s.board) (hok : PsInv.ok s.ps)
+    (h0 : 0 ≤ x.ply) (h1 : x.ply < 63) :
     let o := searchRest child x l next s
     Frame L s o.2 ∧ (∀ q, q ≤ x.ply.toNat → o.2.pv.row q = s.pv.row q) ∧
       LegalLine c.keys s.board (o.2.pv.row (x.ply.toNat + 1)) := by
   simp only [searchRest]
-  have c2 := callChild_post c L child hc (wrapS16 (neg l.alpha - 1)) (neg l.alpha) (wrapS8 (x.d - 1)) h0 h1 next s hg
+  have c2 := callChild_post c L child hc (wrapS16 (neg l.alpha - 1)) (neg l.alpha) (wrapS8 (x.d - 1)) h0 h1 next s hg hok
   simp only at c2
   generalize callChild child (wrapS16 (neg l.alpha - 1)) (neg l.alpha) (wrapS8 (x.d - 1)) (wrapS8 (x.ply + 1)) next s = r2 at c2 ⊢
   have hg2 : Good r2.2.board := by rw [c2.1.board]; exact hg
@@ -225,12 +244,14 @@ theorem searchRest_spec (c : Comp σ π) (L : Limits) {Good : Board → Prop} (c
   · split
     · exact c2
     · have c3 := callChild_post c L child hc (neg x.beta) (neg l.alpha) (wrapS8 (x.d - 1)) h0 h1 next r2.2 hg2
+        (c2.1.mono.ps_ok hok)
       simp only at c3
       generalize callChild child (neg x.beta) (neg l.alpha) (wrapS8 (x.d - 1)) (wrapS8 (x.ply + 1)) next r2.2 = r3 at c3 ⊢
       exact ⟨c2.1.trans c3.1, fun q hq => (c3.2.1 q hq).trans (c2.2.1 q hq), by rw [← c2.1.board]; exact c3.2.2⟩
 
 theorem searchMove_spec (c : Comp σ π) (L : Limits) {Good : Board → Prop} (child : Child σ) (hc : ABSpec c L Good child)
-    (x : ABCtx) (l : ABLoop π) (next : NodeType) (s : St σ) (hg : Good s.board) (h0 : 0 ≤ x.ply) (h1 : x.ply < 63) :
+    (x : ABCtx) (l : ABLoop π) (next : NodeType) (s : St σ) (hg : Good s.board) (hok : PsInv.ok s.ps)
+    (h0 : 0 ≤ x.ply) (h1 : x.ply < 63) :
     let o := searchMove c child x l next s
     Frame L s o.2 ∧ (∀ q, q ≤ x.ply.toNat → o.2.pv.row q = s.pv.row q) ∧
       (o.1 > l.alpha → LegalLine c.keys s.board (o.2.pv.row (x.ply.toNat + 1))) := by
@@ -240,30 +261,31 @@ theorem searchMove_spec (c : Comp σ π) (L : Limits) {Good : Board → Prop} (c
     split
     · -- reduced search performed
       have c1 := callChild_post c L child hc (wrapS16 (neg l.alpha - 1)) (neg l.alpha)
-        (c.lmr x.d (l.moveCnt - 1) x.improving x.nt) h0 h1 next s hg
+        (c.lmr x.d (l.moveCnt - 1) x.improving x.nt) h0 h1 next s hg hok
       simp only at c1
       generalize callChild child (wrapS16 (neg l.alpha - 1)) (neg l.alpha) (c.lmr x.d (l.moveCnt - 1) x.improving x.nt)
         (wrapS8 (x.ply + 1)) next s = r1 at c1 ⊢
       have hg1 : Good r1.2.board := by rw [c1.1.board]; exact hg
       split
       · rename_i hle; exact ⟨c1.1, c1.2.1, fun h => absurd h (Int.not_lt.2 hle)⟩
-      · have c2 := searchRest_spec c L child hc x l next r1.2 hg1 h0 h1
+      · have c2 := searchRest_spec c L child hc x l next r1.2 hg1 (c1.1.mono.ps_ok hok) h0 h1
         simp only at c2
         generalize searchRest child x l next r1.2 = r2 at c2 ⊢
         exact ⟨c1.1.trans c2.1, fun q hq => (c2.2.1 q hq).trans (c1.2.1 q hq), fun _ => by rw [← c1.1.board]; exact c2.2.2⟩
     · -- reduced search skipped: value = 0
       split
       · rename_i hle; exact ⟨Frame.refl L s, fun _ _ => rfl, fun h => absurd h (Int.not_lt.2 hle)⟩
-      · have c2 := searchRest_spec c L child hc x l next s hg h0 h1
+      · have c2 := searchRest_spec c L child hc x l next s hg hok h0 h1
         exact ⟨c2.1, c2.2.1, fun _ => c2.2.2⟩
-  · have c3 := callChild_post c L child hc (neg x.beta) (neg l.alpha) (wrapS8 (x.d - 1)) h0 h1 next s hg
+  · have c3 := callChild_post c L child hc (neg x.beta) (neg l.alpha) (wrapS8 (x.d - 1)) h0 h1 next s hg hok
     simp only at c3
     exact ⟨c3.1, c3.2.1, fun _ => c3.2.2⟩
 
 /-- `abAfter`: undo + pop, and the PV row of this ply is either untouched or `m ::` the child's row
     (only when the value raised alpha). -/
-theorem abAfter_spec (c : Comp σ π) (L : Limits) (x : ABCtx) (m : Move) (r : Board.Reverse)
-    (l : ABLoop π) (value : Score) (s : St σ) :
+theorem abAfter_spec (c : Comp σ π) (L : Limits) {Good : Board → Prop} (hl : Laws c Good) (x : ABCtx) (m : Move)
+    (r : Board.Reverse) (l : ABLoop π) (value : Score) (s : St σ)
+    (hgb : Good (s.board.undoMove m r)) (hmb : m ∈ MoveGen.gen (s.board.undoMove m r)) :
     let o := abAfter c L x m r l value s
     Mono L s o.2 ∧ o.2.board = s.board.undoMove m r ∧ o.2.hstack = s.hstack.tail ∧ o.2.frames = s.frames ∧
       (o.2.pv = s.pv ∨ (value > l.alpha ∧ o.2.pv = s.pv.insert x.ply.toNat m)) ∧
@@ -279,8 +301,9 @@ theorem abAfter_spec (c : Comp σ π) (L : Limits) (x : ABCtx) (m : Move) (r : B
   · split
     · next hgt =>
       split
-      · exact ⟨hm.trans (mono_setPs L _ _), hf.board, hf.hstack, hf.frames, Or.inl hp,
-          fun l' h => by rcases h with h | h <;> cases h⟩
+      · exact ⟨hm.trans (mono_setPs L _ _ (fun h => hl.ok_failHigh _ _ _ _ _
+            (hl.ok_store _ _ _ _ _ _ _ h (by rw [hf.board]; exact hgb) (Or.inr (by rw [hf.board]; exact hmb))))),
+          hf.board, hf.hstack, hf.frames, Or.inl hp, fun l' h => by rcases h with h | h <;> cases h⟩
       · split
         · exact ⟨hm.trans (mono_setPv L _ _), hf.board, hf.hstack, hf.frames, Or.inr ⟨hgt, by simp [hp]⟩,
             fun l' h => by rcases h with h | h <;> cases h; exact ⟨rfl, _, rfl⟩⟩
@@ -291,6 +314,22 @@ theorem abAfter_spec (c : Comp σ π) (L : Limits) (x : ABCtx) (m : Move) (r : B
           fun l' h => by rcases h with h | h <;> cases h; exact ⟨rfl, _, rfl⟩⟩
       · exact ⟨hm, hf.board, hf.hstack, hf.frames, Or.inl hp,
           fun l' h => by rcases h with h | h <;> cases h; exact ⟨rfl, _, rfl⟩⟩
+
+/-- the best move after one more move is the old one or the move just searched. -/
+theorem abAfter_best (c : Comp σ π) (L : Limits) (x : ABCtx) (m : Move) (r : Board.Reverse)
+    (l : ABLoop π) (value : Score) (s : St σ) :
+    ∀ l', ((abAfter c L x m r l value s).1 = .cont l' ∨ (abAfter c L x m r l value s).1 = .brk l') →
+      l'.bestMove = l.bestMove ∨ l'.bestMove = m := by
+  simp only [abAfter]
+  generalize abort L (s.setBoard (s.board.undoMove m r)).pop = as
+  intro l' h
+  split at h
+  · rcases h with h | h <;> cases h
+  · split at h
+    · split at h
+      · rcases h with h | h <;> cases h
+      · split at h <;> (rcases h with h | h <;> cases h <;> exact Or.inr rfl)
+    · split at h <;> (rcases h with h | h <;> cases h <;> exact Or.inl rfl)
 
 theorem insert_row_ne (r : Pv.Rows) (p q : Nat) (m : Move) (h : q ≠ p) : (r.insert p m).row q = r.row q := by
   simp [Pv.Rows.insert, h]
